@@ -62,7 +62,7 @@ def _expr_kind(m, ci, f, e, depth):
             return 'list'
         if d in ('dict', 'ImmutableDict'):
             return 'dict'
-        if d == 'b64decode':
+        if d in ('b64decode', 'b64encode', 'bytes'):
             return 'bytes'
         if d == 'self':
             return _ret_kind(m, ci, '__call__', depth + 1)
